@@ -17,7 +17,8 @@ R0 == <<JNull, JInt(1), JStr(cA), JArr(<<>>)>>
 Names == <<cA, cB>>
 L1 == DedupSeq(S0 \o ArraysOver(IF Thorough THEN S0 ELSE R0, 2) \o ObjectsOver(Names, IF Thorough THEN S0 ELSE R0))
 R1 == <<JInt(1), JArr(<<JInt(1)>>), JArr(<<JStr(cA), JInt(1)>>), JObj(<<cA>>, <<JInt(1)>>),
-        JObj(<<cA, cB>>, <<JInt(1), JStr(cA)>>), JArr(<<JArr(<<>>)>>)>>
+        JObj(<<cA, cB>>, <<JInt(1), JStr(cA)>>), JArr(<<JArr(<<>>)>>),
+        JObj(<<cA, cB>>, <<JObj(<<cA, cB>>, <<JArr(<<JInt(1)>>), JInt(2)>>), JInt(2)>>)>>          \* {"a":{"a":[1],"b":2},"b":2}: same names nested
 R1T == R1 \o <<JObj(<<cB>>, <<JNull>>), JArr(<<JInt(0), JInt(1)>>), JObj(<<cA>>, <<JObj(<<cA>>, <<JInt(1)>>)>>), JStr(cA)>>
 L2 == ArraysOver(IF Thorough THEN R1T ELSE R1, 2) \o ObjectsOver(Names, IF Thorough THEN R1T ELSE R1)
 
@@ -161,7 +162,9 @@ TW == LTest(FALSE, ERel(<<Child(<<SWild>>)>>))                     \* @.*
 TN == LTest(FALSE, ERel(<<Child(<<SFilter(LTest(FALSE, RelN(cB)))>>)>>))      \* @[?@.b]   (nested filter, @ rebinding)
 TN2 == LTest(FALSE, ERel(<<Child(<<SWild>>), Child(<<SFilter(LCmp("==", ERel(<<>>), EAbs(<<N1(cK)>>)))>>)>>))  \* @.*[?@ == $.k]
 TNN == LTest(TRUE, ERel(<<Child(<<SFilter(LTest(TRUE, RelN(cB)))>>)>>))       \* !@[?!@.b]
-C05Atoms == <<TA, TB, TC, NA, TK, TW, TN, TN2>>
+TEq == LCmp("==", RelN(cA), RelN(cX))                              \* @.a == @.x  (true when both select nothing)
+TLe == LCmp("<=", RelN(cX), EAbs(<<N1(cX)>>))                      \* @.x <= $.x
+C05Atoms == <<TA, TB, TC, NA, TK, TW, TN, TN2, TEq, TLe>>
 C05AtomsT == C05Atoms \o <<NB, TNN, LCmp("!=", RelN(cA), RelN(cC)), LTest(FALSE, EAbs(<<N1(cK)>>)), LTest(TRUE, EAbs(<<N1(cX)>>))>>
 C05A == IF Thorough THEN C05AtomsT ELSE C05Atoms
 C05And2 == Cross2(C05A, C05A, LAMBDA x, y : LAnd(<<x, y>>))
@@ -261,11 +264,22 @@ C14Queries == FlattenSeq([f \in 1..5 |->
                    Flt1(LAnd(<<LTest(FALSE, EFn(C14Fns[f], <<RelN(cX), RelN(cL)>>)), LTest(FALSE, RelN(cX))>>)) >>])
 C14Stride == IF Thorough THEN 1 ELSE 1
 
+(* ---------- C15: member order that only an insertion-ordered Queryable can have ------------- *)
+U1 == JObj(<<cB, cA>>, <<JInt(1), JInt(2)>>)
+U2 == JObj(<<cX, cB, cA>>, <<JArr(<<JInt(1)>>), JObj(<<cB, cA>>, <<JInt(3), JInt(1)>>), JInt(1)>>)
+U3 == JObj(<<<<122>>, <<97, 32, 98>>, cA>>, <<JInt(1), JInt(2), JInt(3)>>)
+C15Docs == <<U1, U2, U3, JArr(<<U1, U2>>), JObj(<<cK, cA>>, <<U2, JArr(<<U3, JInt(1)>>)>>),
+             JObj(<<cB, cA>>, <<JObj(<<cB, cA>>, <<JObj(<<cB, cA>>, <<JInt(1), JInt(2)>>), JInt(2)>>), JInt(3)>>)>>
+C15Sels == <<SWild, SName(cA), SName(cB), SIndex(0), SFilter(LCmp(">", ERel(<<>>), ELit(JInt(0)))), SFilter(LTest(FALSE, RelN(cA))),
+             SFilter(LCmp("==", RelN(cA), ELit(JInt(1)))), SSlice(ABSENT, ABSENT, -1)>>
+C15Segs == [i \in 1..Len(C15Sels) |-> Child(<<C15Sels[i]>>)] \o [i \in 1..Len(C15Sels) |-> Desc(<<C15Sels[i]>>)]
+C15Queries == TuplesUpTo(C15Segs, IF Thorough THEN 3 ELSE 2)
+
 (* ---------- selection ------------------------------------------------------ *)
 Docs    == CASE Univ = "C01" -> C01Docs [] Univ = "C11" -> C11Docs [] Univ = "C03" -> C03Docs [] Univ = "C04" -> C04Docs
-             [] Univ = "C05" -> C05Docs [] Univ = "C10" -> C10Docs [] Univ = "C14" -> C14Docs
+             [] Univ = "C05" -> C05Docs [] Univ = "C10" -> C10Docs [] Univ = "C14" -> C14Docs [] Univ = "C15" -> C15Docs
 Queries == CASE Univ = "C01" -> C01Queries [] Univ = "C11" -> C11Queries [] Univ = "C03" -> C03Queries [] Univ = "C04" -> C04Queries
-             [] Univ = "C05" -> C05Queries [] Univ = "C10" -> C10Queries [] Univ = "C14" -> C14Queries
+             [] Univ = "C05" -> C05Queries [] Univ = "C10" -> C10Queries [] Univ = "C14" -> C14Queries [] Univ = "C15" -> C15Queries
 StrideN == CASE Univ = "C01" -> C01Stride [] Univ = "C11" -> C11Stride [] Univ = "C05" -> C05Stride [] Univ = "C14" -> C14Stride [] OTHER -> 1
 Mode    == IF "VERIF_MODE" \in DOMAIN IOEnv THEN IOEnv.VERIF_MODE ELSE CASE Univ = "C03" -> "paths" [] OTHER -> "nodes"
 Pick(d, q) == CASE Univ = "C03" -> C03Pick(d, q)
